@@ -79,6 +79,20 @@ func HarnessC15Pack(a []int) {
 	verifAssert("C15.header", buf[0] == 6 && buf[1] == 0x10 && uint16(buf[2])<<8|uint16(buf[3]) == uint16(v.Service()))
 	verifAssert("C15.total_length", int(buf[4])<<8|int(buf[5]) == size)
 	verifObserveNative("buf", buf)
+	// the same value packed into a buffer that is longer than needed: identical frame, the
+	// total-length field still describes the frame (not the buffer), the tail is not touched
+	big := make([]byte, size+guard)
+	copy(big, nondetGarbage(size))
+	for i := 0; i < guard; i++ {
+		big[size+i] = 0x5A
+	}
+	Pack(big, v)
+	for i := 0; i < size; i++ {
+		verifAssert("C15.oversize_buffer.same_frame", big[i] == buf[i])
+	}
+	for i := 0; i < guard; i++ {
+		verifAssert("C15.oversize_buffer.tail_untouched", big[size+i] == 0x5A)
+	}
 	// what was written decodes again, with over-long parts cut at the field limit
 	var out Service
 	n, err := Unpack(buf[:size], &out)
